@@ -45,6 +45,7 @@ from crosshair.statespace import (
 )
 from crosshair.tracers import COMPOSITE_TRACER, NoTracing, ResumedTracing, is_tracing
 from crosshair.util import (
+    CrossHairInternal,
     CrosshairUnsupported,
     IgnoreAttempt,
     NotDeterministic,
@@ -185,6 +186,56 @@ def _run_path(prop, cfg, args):
     return None
 
 
+# ---------------------------------------------------------------- isolation of paths from each other
+# Every path must start from the same program state.  Mutable default arguments of tpmstream functions
+# (a classic way for state to leak from one decode into the next) are restored to a pristine copy before
+# each path: a leak then shows up *inside* a path - where the harnesses observe it as a property failure -
+# instead of carrying symbolic values of a finished path into the next one (which crashes CrossHair).
+_PRISTINE_DEFAULTS = None
+
+
+def _mutable(x):
+    return isinstance(x, (list, dict, set, bytearray))
+
+
+def _scan_defaults():
+    import copy
+    import inspect
+    import types
+
+    out = []
+    seen = set()
+    for name, mod in list(sys.modules.items()):
+        if not name.startswith("tpmstream") or mod is None:
+            continue
+        objs = list(vars(mod).values())
+        for o in list(objs):
+            if inspect.isclass(o) and getattr(o, "__module__", "").startswith("tpmstream"):
+                objs.extend(vars(o).values())
+        for o in objs:
+            f = getattr(o, "__func__", o)
+            if not isinstance(f, types.FunctionType) or id(f) in seen:
+                continue
+            seen.add(id(f))
+            d, kd = f.__defaults__, f.__kwdefaults__
+            if (d and any(_mutable(x) for x in d)) or (kd and any(_mutable(x) for x in kd.values())):
+                out.append((f, copy.deepcopy(d), copy.deepcopy(kd)))
+    return out
+
+
+def restore_mutable_defaults():
+    global _PRISTINE_DEFAULTS
+    import copy
+
+    if _PRISTINE_DEFAULTS is None:
+        _PRISTINE_DEFAULTS = _scan_defaults()
+    for f, d, kd in _PRISTINE_DEFAULTS:
+        if d is not None:
+            f.__defaults__ = copy.deepcopy(d)
+        if kd is not None:
+            f.__kwdefaults__ = copy.deepcopy(kd)
+
+
 class _HardTimeout(BaseException):
     pass
 
@@ -232,6 +283,7 @@ def explore(part):
                 res["reason"] = "budget %.0fs reached" % budget
                 break
             res["paths"] += 1
+            restore_mutable_defaults()
             space = StateSpace(
                 execution_deadline=start + ppt,
                 model_check_timeout=ppt / 2,
@@ -277,6 +329,12 @@ def explore(part):
                     res["unknown_reasons"]["NotDeterministic"] = (
                         res["unknown_reasons"].get("NotDeterministic", 0) + 1
                     )
+                    status = VerificationStatus.UNKNOWN
+                except (CrossHairInternal, z3.Z3Exception) as e:
+                    # e.g. a symbolic value of an earlier path leaked through program state
+                    res["unknown"] += 1
+                    k = "engine:" + type(e).__name__
+                    res["unknown_reasons"][k] = res["unknown_reasons"].get(k, 0) + 1
                     status = VerificationStatus.UNKNOWN
                 top, exhausted = space.bubble_status(CallAnalysis(status))
             if exhausted:
